@@ -100,6 +100,7 @@ type Gen struct {
 	macroDepth int
 	preDecl    map[string]bool // symbols declared by the spec prelude
 	forbid     []Forbid
+	nbound     int
 }
 
 type FrameInfo struct {
